@@ -1194,8 +1194,10 @@ impl ArrayLevels {
         // When nni is empty (all-null chunk), start=0, end=0 → zero-length
         // array slice; write_batch_internal will process only the def/rep
         // levels and write no values.
-        let start = nni.first().copied().unwrap_or(0);
-        let end = nni.last().map_or(0, |&i| i + 1);
+        // The indices are not necessarily increasing (list views may refer to
+        // their child values in any order), so take the minimum and maximum.
+        let start = nni.iter().copied().min().unwrap_or(0);
+        let end = nni.iter().copied().max().map_or(0, |i| i + 1);
         // Shift indices to be relative to the sliced array.
         let non_null_indices = nni.iter().map(|&idx| idx - start).collect();
         // Slice the array to the computed range.
